@@ -273,6 +273,21 @@ fn exec_op<K: Key + 'static, V: Value + 'static>(
                     let e = match c {
                         'f' => it.next(),
                         'b' => it.next_back(),
+                        'd' => {
+                            // drain from the front until the iterator reports exhaustion
+                            while let Some(e) = it.next() {
+                                let (k, v) = e.unwrap();
+                                outs.push(pe::<K, V>(&k.value(), &v.value()));
+                            }
+                            continue;
+                        }
+                        'D' => {
+                            while let Some(e) = it.next_back() {
+                                let (k, v) = e.unwrap();
+                                outs.push(pe::<K, V>(&k.value(), &v.value()));
+                            }
+                            continue;
+                        }
                         _ => continue,
                     };
                     outs.push(match e {
